@@ -4,7 +4,9 @@ use inkayaku_core::fen::Fen;
 
 fn snap(b: &Bitboard) -> String { Fen::from(b).fen }
 
-const FENS: [&str; 4] = [
+const FENS: [&str; 6] = [
+    "4k3/8/8/8/7b/8/5B2/4K3 w - - 130 200",   // large half-move clock: the probe's make/unmake must restore it
+    "r3k2r/8/8/8/8/8/4q3/R3K2R w KQkq - 300 400",
     // bishop on g2 pinned against the king on h1 by the bishop... (property text: pinned piece move f1g2-like)
     "4k3/8/8/8/8/8/4r3/3BK3 w - - 0 1",       // Bd1 free, king e1 attacked by Re2? (king must answer) -> many illegal pseudo-legal moves
     "4k3/8/8/8/7b/8/5B2/4K3 w - - 0 1",       // Bf2 pinned by Bh4
